@@ -179,6 +179,23 @@ class Gen:
         out.append(Simple("dbtp <v:%s>.<m:%s>(%s)" % (obj, name, ", ".join(self.lit() for _ in range(ar))), "dbtp"))
         return out
 
+    def module_def(self):
+        mname = self.fresh("c", "Modul")
+        saved_classes = self.classes
+        self.classes = []
+        inner = self.class_def()
+        cls = inner[0]
+        cname = self.classes[-1]
+        self.classes = saved_classes
+        out = [Compound("module <c:%s>" % mname, [[cls]], [], kind="module")]
+        obj = self.fresh("v", "o")
+        self.vars.append(obj)
+        out.append(Simple("<v:%s> = <c:%s>::<c:%s>.new" % (obj, mname, cname), "assign"))
+        out.append(Simple("dbtp <v:%s>" % obj, "dbtp"))
+        if self.r.random() < 0.5:
+            out.append(Simple("dbtp <c:%s>.new" % cname, "dbtp"))      # unqualified: not visible at top level
+        return out
+
     def error_stmt(self):
         return Simple(self.r.choice(["1.nope", '"s".zork(1)', "[1].first(1, 2, 3)", "undefined_thing_zz", "1 + \"s\""]), "error")
 
@@ -201,6 +218,8 @@ class Gen:
                 out.append(Simple("dbtp <m:%s>(%s)" % (name, ", ".join(self.lit() for _ in range(ar))), "dbtp"))
             elif f == "class":
                 out += self.class_def()
+            elif f == "module":
+                out += self.module_def()
             elif f == "error":
                 out.append(self.error_stmt())
         return out
